@@ -99,3 +99,64 @@ Example F36_refuted :
   snd (load_tree leaf lvalidate lto_python ldefault l_callable lflag (vrun []) t true w [] c false [] ex_fs_flag)
   = OErr (EValidation (sa "sub.need")).
 Proof. vm_compute. reflexivity. Qed.
+
+(* ---- C01 for the concrete fields: the declared constraints, written declaratively ---- *)
+From Cinco Require Import ConfigWF.
+Definition inst_meets (f : leaf) (v : pyval) : Prop :=
+  v = PNone \/
+  match l_kind f with
+  | LInt lo hi => exists z, v = PInt z /\ in_bounds lo hi z = true
+  | LStr mn mx lw st => exists s, v = PStr s
+                        /\ (match mn with Some m => (m <= length s)%nat | None => True end)
+                        /\ (match mx with Some m => (length s <= m)%nat | None => True end)
+                        /\ (l_required f = true -> s <> [])
+  | LBool | LFlag => exists b, v = PBool b
+  | LAny => True
+  end.
+
+Lemma validate_bool_is_bool : forall x v, validate_bool x = Ok v -> exists b, v = PBool b.
+Proof.
+  intros x v. unfold validate_bool. destruct x; try discriminate; try (intro H; inversion H; eexists; reflexivity).
+  - destruct f; intro H; inversion H; eexists; reflexivity.
+  - destruct (negb (all_ascii s)); [discriminate|].
+    destruct (str_in (lower s) bool_true); [intro H; inversion H; eexists; reflexivity|].
+    destruct (str_in (lower s) bool_false); [intro H; inversion H; eexists; reflexivity | discriminate].
+Qed.
+
+Lemma lower_length : forall s, length (lower s) = length s.
+Proof. intro s. unfold lower. apply map_length. Qed.
+
+Theorem inst_validate_sound : forall f x v, lvalidate f x = Ok v -> inst_meets f v.
+Proof.
+  intros f x v. unfold lvalidate, inst_meets.
+  destruct x as [|b|z|fl|s|bs|tg l|l|tg d|sa0 dg al|tg];
+    try (destruct (l_required f); [discriminate | intro H; inversion H; left; reflexivity]);
+    destruct (l_kind f) as [lo hi|mn mx lw st| | |]; try discriminate;
+    try (intro H; right; eapply validate_bool_is_bool; eauto; fail);
+    try (intro H; right; exact I).
+  - destruct (in_bounds lo hi z) eqn:E; [|discriminate]. intro H; inversion H; subst. right. exists z. split; [reflexivity | exact E].
+  - destruct (ci_int_of_str s) as [z| |]; try discriminate.
+    destruct (in_bounds lo hi z) eqn:E; [|discriminate]. intro H; inversion H; subst. right. exists z. split; [reflexivity | exact E].
+  - set (s1 := if st then strip_ws s else s).
+    destruct (l_required f && match s1 with [] => true | _ => false end) eqn:Er; [discriminate|].
+    destruct (lw && negb (all_ascii s1)); [discriminate|].
+    set (s2 := if lw then lower s1 else s1).
+    destruct mn as [m|]; destruct mx as [m'|];
+      try destruct (length s2 <? m)%nat eqn:E1; try discriminate; try destruct (m' <? length s2)%nat eqn:E2; try discriminate;
+      intro H; inversion H; subst; right; exists s2; repeat split;
+      try (apply Nat.ltb_ge in E1; exact E1); try (apply Nat.ltb_ge in E2; exact E2);
+      try (intros Hr Hs; rewrite Hr in Er; cbn [andb] in Er; assert (s1 = []) by
+             (unfold s2 in Hs; destruct lw; [apply (f_equal (@length N)) in Hs; rewrite lower_length in Hs; destruct s1; [reflexivity | discriminate] | exact Hs]);
+           subst s1; rewrite H0 in Er; discriminate).
+Qed.
+
+(* every state reachable from a fresh configuration by any history is well-formed, given valid declared defaults *)
+Theorem inst_reachable_wf : forall vt ops w dyn vs fs,
+  (forall f n, inst_meets f (ldefault f n)) -> ok_fields leaf fs ->
+  wf_cfg leaf inst_meets fs
+    (run leaf lvalidate lto_python ldefault l_callable lflag (vrun vt) ops
+         (fst (build_cfg leaf ldefault l_callable w fs)) (snd (build_cfg leaf ldefault l_callable w fs)) dyn vs fs).
+Proof. intros. apply reachable_wf; [apply inst_validate_sound | assumption | assumption]. Qed.
+
+Example ex_defaults_valid : forall n, inst_meets (mk (LInt (Some 1%Z) (Some 100%Z)) false (PInt 3)) (ldefault (mk (LInt (Some 1%Z) (Some 100%Z)) false (PInt 3)) n).
+Proof. intro n. right. exists 3%Z. split; reflexivity. Qed.
